@@ -17,6 +17,8 @@ pub mod runtime;
 pub mod snapshot;
 mod solver;
 pub mod utils;
+#[cfg(resolvo_verif)]
+pub mod verif;
 
 use std::{
     any::Any,
